@@ -72,35 +72,60 @@ def rule_H2(ctx: Ctx) -> None:
     if not ctx.deps.sdc_loading_fn_gets_whole_data() or ctx.deps.sdc_load_field_order() != ["deserialize_fn", "loading_fn"]:
         raise AnalysisError("muutils generated load no longer calls loading_fn(data) / deserialize_fn(value)")
     fields = ctx.index.all_fields(ctx.index.cls(CFG))
+    # the field loaders by abstract evaluation: loading_fn (a lambda or a module-level function) applied to abstract serialized configs in
+    # which *every* field carries a distinguishable symbolic value, so that reading another field's key shows
+    from sa.fold import Closure, EvalRaised, Evaluator, Unknown
+
+    mod = ctx.index.module(MD)
+
+    def hook(ev, node, env):
+        d = dotted_of(node.func) or ""
+        if d == "_load_maze_ctor" and len(node.args) == 1:
+            return ("generator restored from", ev.ev(node.args[0], env))
+        if d == "isinstance" and len(node.args) == 2 and X.U(node.args[1]) in ("bool", "list", "tuple", "dict", "str", "int"):
+            return isinstance(ev.ev(node.args[0], env), {"bool": bool, "list": list, "tuple": tuple, "dict": dict, "str": str, "int": int}[X.U(node.args[1])])
+        return NotImplemented
+
+    def name_hook(name, env):
+        if name in mod.functions:
+            return Closure(mod.functions[name].node, {})
+        raise Unknown(f"free name `{name}`")
+    ek = {"allowed_start": [[1, 2], [3, 4]], "allowed_end": None, "deadend_start": True, "deadend_end": False, "endpoints_not_equal": False, "except_on_no_valid_endpoint": True}
+    full = {"name": "<name>", "grid_n": "<grid_n>", "n_mazes": "<n_mazes>", "seed": "<seed>", "applied_filters": "<applied_filters>",
+            "maze_ctor": {"__name__": "gen_x", "code_hash": 1}, "maze_ctor_kwargs": {"p": 0.5, "do_forks": False}, "endpoint_kwargs": ek}
+    want_full = {"maze_ctor": ("generator restored from", full["maze_ctor"]), "maze_ctor_kwargs": {"p": 0.5, "do_forks": False},
+                 "endpoint_kwargs": {"allowed_start": [(1, 2), (3, 4)], "allowed_end": None, "deadend_start": True, "deadend_end": False, "endpoints_not_equal": False,
+                                     "except_on_no_valid_endpoint": True}}
+    legacy = {k: v for k, v in full.items() if k not in ("maze_ctor_kwargs", "endpoint_kwargs")}   # configs saved before the option dicts existed
+    legacy_none = {**legacy, "endpoint_kwargs": None}
+    import copy as _copy
+
     for name in ("maze_ctor", "maze_ctor_kwargs", "endpoint_kwargs"):
         f = fields[name]
         lf = f.kwarg("loading_fn")
         exp = f"loading_fn of `{name}` reads data['{name}'] (its own key) and restores the documented value"
-        if not isinstance(lf, ast.Lambda):
-            ctx.unknown(f.owner, {"field": name, "loading_fn": X.U(lf)}, exp)
-            continue
-        arg = lf.args.args[0].arg
-        keys = X.keys_read(lf.body, arg)
-        own = keys == {name}
-        extra = {}
-        ok = own
-        if name == "maze_ctor":
-            ok = ok and X.same_expr(lf.body, f"_load_maze_ctor({arg}['maze_ctor'])")
-        elif name == "maze_ctor_kwargs":
-            ok = ok and isinstance(lf.body, ast.IfExp) and X.same_expr(lf.body.orelse, f"{arg}['maze_ctor_kwargs']") and X.same_expr(lf.body.body, "dict()", "{}")
-        elif name == "endpoint_kwargs":
-            # {k: v if (isinstance(v, bool) or v is None) else [tuple(x) for x in v] for k, v in data['endpoint_kwargs'].items()}
-            dc = lf.body.orelse if isinstance(lf.body, ast.IfExp) else None
-            tup = False
-            if isinstance(dc, ast.DictComp) and isinstance(dc.value, ast.IfExp):
-                conv = dc.value.orelse
-                ew = X.elementwise(conv)
-                tup = ew is not None and ew[2] == "list" and X.same_expr(ew[0], "tuple(_x)") and X.U(ew[1]) == X.U(dc.generators[0].target.elts[1])
-                okt, _ = X.relation_in(dc.value.test, [f"isinstance({X.U(dc.generators[0].target.elts[1])}, bool) or {X.U(dc.generators[0].target.elts[1])} is None"])
-                tup = tup and okt and X.same_expr(dc.generators[0].iter, f"{arg}['endpoint_kwargs'].items()") and X.U(dc.key) == X.U(dc.generators[0].target.elts[0])
-            extra["coordinate_lists_restored_as_tuples"] = tup
-            ok = ok and tup
-        ctx.judge(f.owner, ok, {"field": name, "keys_read": sorted(keys), **extra, "loading_fn": X.U(lf)[:200]}, exp,
+        bad, unk = [], []
+        cases = [("full", full, want_full[name])]
+        if name != "maze_ctor":
+            cases += [("saved without this option dict", legacy, {}), ]
+        if name == "endpoint_kwargs":
+            cases += [("endpoint_kwargs stored as None", legacy_none, {}), ("empty option dict", {**full, "endpoint_kwargs": {}}, {})]
+        for label, data, want in cases:
+            try:
+                ev_ = Evaluator({"__call__": hook, "__name__": name_hook})
+                fn_ = ev_.ev(lf, {}) if lf is not None else None
+                got = ev_.call(fn_, [_copy.deepcopy(data)], {})
+            except EvalRaised as e:
+                got = f"raises {e.exc_name}"
+            except Unknown as e:
+                unk.append(f"{label}: {e}"[:140])
+                continue
+            except Exception as e:  # the evaluator's own call protocol on a non-callable
+                unk.append(f"{label}: {type(e).__name__}"[:140])
+                continue
+            if got != want or (name == "endpoint_kwargs" and isinstance(got, dict) and any(isinstance(v, list) and any(not isinstance(c, tuple) for c in v) for v in got.values())):
+                bad.append({"serialized": label, "loaded": repr(got)[:160], "expected": repr(want)[:160]})
+        ctx.judge(f.owner, False if bad else None if unk else True, {"field": name, "loading_fn": X.U(lf)[:120] if lf is not None else None, "deviations": bad[:2], "undecided": unk[:2]}, exp,
                   "the loaded configuration gets another field's value / coordinate lists come back as lists (config != original, endpoint sets never match)")
     lm = ctx.index.func(f"{MD}._load_maze_ctor")
     from sa import dtable as DT
